@@ -304,7 +304,7 @@ class C05(Check):
         "un-pickling restores exactly the pickled attribute dictionaries (trusted: pickle/dill)"]
 
     def witnesses(self):
-        return [("D6", W.D6), ("D7", W.D7)]
+        return [("D6", W.D6), ("D7", W.D7), ("D7b", W.D7b)]
 
     def audit(self, real, p, rng):
         lines = []
